@@ -300,10 +300,47 @@ func genCase(layer string) func(t *rapid.T) discCase {
 	}
 }
 
+// boundary counts: n well-formed replies followed by an over-length datagram whose first 64 bytes are a well-formed reply
+// (and by one more valid reply), for n around the powers of two - where fixed-size blocks of receive buffers fill up
+func sweepCounts(yield func(discCase) bool) {
+	l := spec.Responses["GetDevices"]
+	mk := func(serial uint32) []byte {
+		d := make([]byte, 64)
+		spec.Header(d, 0x17, l.Code, serial)
+		copy(d[8:], []byte{192, 168, 1, byte(serial), 255, 255, 255, 0, 192, 168, 1, 1, 0, 0x66, 0x19, 0x39, 0x55, byte(serial), 0x08, 0x92, 0x20, 0x18, 0x08, 0x16})
+		return d
+	}
+	var counts []int
+	if ev.Thorough() {
+		for n := 0; n <= 130; n++ {
+			counts = append(counts, n)
+		}
+	} else {
+		counts = []int{0, 1, 2, 3, 4, 7, 8, 15, 16, 31, 32, 63, 64, 127, 128}
+	}
+	for i, n := range counts {
+		if !ev.Mine(i) {
+			continue
+		}
+		for _, extra := range []int{1, 960} {
+			c := discCase{Layer: "socket", Cfg: hook.ClientCfg{HasBroadcast: true}}
+			for k := 0; k < n; k++ {
+				c.Datagrams = append(c.Datagrams, mk(uint32(1000+k)))
+			}
+			c.Datagrams = append(c.Datagrams, append(mk(77777), make([]byte, extra)...)) // over-length: must be dropped
+			c.Datagrams = append(c.Datagrams, mk(88888))
+			c.Senders = make([]int, len(c.Datagrams))
+			if !yield(c) {
+				return
+			}
+		}
+	}
+}
+
 func props() []rp.Prop {
 	return []rp.Prop{
 		rp.P[discCase]{Name: "hook-discovery", Checks: ev.Pick(24000, 800000) / ev.Shards(), Gen: genCase("hook"), Check: check},
-		rp.P[discCase]{Name: "socket-discovery", Checks: ev.Pick(320, 9600) / ev.Shards(), Gen: genCase("socket"), Check: check},
+		rp.P[discCase]{Name: "socket-discovery", Checks: ev.Pick(320, 9600) / ev.Shards(), Gen: genCase("socket"), Sweep: sweepCounts, Check: check},
 	}
 }
 
